@@ -218,11 +218,7 @@ fn check_history(rep: &mut Report, text: &[u8], qs: &[Q], tag: &str) -> bool {
                     Ok(got) => {
                         if got != want {
                             ok = false;
-                            rep.violation(
-                                format!("C12:to_line_column:{tag}:mismatch"),
-                                format!("to_line_column({o}) = {got:?}, model {want:?} (query #{i})"),
-                                replay(i),
-                            );
+                            rep.violation_lazy(format!("C12:to_line_column:{tag}:mismatch"), || (format!("to_line_column({o}) = {got:?}, model {want:?} (query #{i})"), replay(i)));
                         }
                         // fresh index must agree (history independence)
                         if i % 7 == 0 {
@@ -230,11 +226,7 @@ fn check_history(rep: &mut Report, text: &[u8], qs: &[Q], tag: &str) -> bool {
                             rep.eval();
                             if fresh != got {
                                 ok = false;
-                                rep.violation(
-                                    format!("C12:to_line_column:{tag}:history_dependent"),
-                                    format!("used index {got:?} vs fresh {fresh:?} for offset {o}"),
-                                    replay(i),
-                                );
+                                rep.violation_lazy(format!("C12:to_line_column:{tag}:history_dependent"), || (format!("used index {got:?} vs fresh {fresh:?} for offset {o}"), replay(i)));
                             }
                         }
                         // round trip for in-bounds offsets
@@ -243,18 +235,14 @@ fn check_history(rep: &mut Report, text: &[u8], qs: &[Q], tag: &str) -> bool {
                             let back = idx.to_offset(got.0, got.1);
                             if back != Some(*o) {
                                 ok = false;
-                                rep.violation(
-                                    format!("C12:roundtrip:{tag}:mismatch"),
-                                    format!("offset {o} -> {got:?} -> {back:?}"),
-                                    replay(i),
-                                );
+                                rep.violation_lazy(format!("C12:roundtrip:{tag}:mismatch"), || (format!("offset {o} -> {got:?} -> {back:?}"), replay(i)));
                             }
                         }
                         prev = Some((*o, want.0));
                     }
                     Err(p) => {
                         ok = false;
-                        rep.violation(format!("C12:to_line_column:panic:{}", panic_sig(&p)), p, replay(i));
+                        rep.violation_lazy(format!("C12:to_line_column:panic:{}", panic_sig(&p)), || (p.clone(), replay(i)));
                     }
                 }
             }
@@ -266,16 +254,12 @@ fn check_history(rep: &mut Report, text: &[u8], qs: &[Q], tag: &str) -> bool {
                         if got != want {
                             ok = false;
                             let cls = if huge { "huge_column" } else { "mismatch" };
-                            rep.violation(
-                                format!("C12:to_offset:{cls}"),
-                                format!("to_offset({l},{c}) = {got:?}, model {want:?}"),
-                                replay(i),
-                            );
+                            rep.violation_lazy(format!("C12:to_offset:{cls}"), || (format!("to_offset({l},{c}) = {got:?}, model {want:?}"), replay(i)));
                         }
                     }
                     Err(p) => {
                         ok = false;
-                        rep.violation(format!("C12:to_offset:panic:{}", panic_sig(&p)), p, replay(i));
+                        rep.violation_lazy(format!("C12:to_offset:panic:{}", panic_sig(&p)), || (p.clone(), replay(i)));
                     }
                 }
                 rep.count(if want.is_some() { "q.to_offset.some" } else { "q.to_offset.none" });
@@ -286,16 +270,12 @@ fn check_history(rep: &mut Report, text: &[u8], qs: &[Q], tag: &str) -> bool {
                     Ok(got) => {
                         if got != want {
                             ok = false;
-                            rep.violation(
-                                "C12:line_start:mismatch",
-                                format!("line_start({l}) = {got:?}, model {want:?}"),
-                                replay(i),
-                            );
+                            rep.violation_lazy("C12:line_start:mismatch", || (format!("line_start({l}) = {got:?}, model {want:?}"), replay(i)));
                         }
                     }
                     Err(p) => {
                         ok = false;
-                        rep.violation(format!("C12:line_start:panic:{}", panic_sig(&p)), p, replay(i));
+                        rep.violation_lazy(format!("C12:line_start:panic:{}", panic_sig(&p)), || (p.clone(), replay(i)));
                     }
                 }
             }
@@ -303,11 +283,7 @@ fn check_history(rep: &mut Report, text: &[u8], qs: &[Q], tag: &str) -> bool {
                 let got = idx.line_count();
                 if got != starts.len() || idx.text_len() != len {
                     ok = false;
-                    rep.violation(
-                        "C12:line_count:mismatch",
-                        format!("line_count {got} text_len {} vs model {} / {len}", idx.text_len(), starts.len()),
-                        replay(i),
-                    );
+                    rep.violation_lazy("C12:line_count:mismatch", || (format!("line_count {got} text_len {} vs model {} / {len}", idx.text_len(), starts.len()), replay(i)));
                 }
             }
         }
